@@ -71,7 +71,7 @@ def main():
             "guard": "feature verif (cargo feature of the tftpd crate)",
             "enable": "harness/Cargo.toml depends on /repo with features=[\"client\",\"verif\"]",
             "baseline_off_cmd": "cd /repo && cargo test --workspace --no-fail-fast --offline",
-            "source_commits": [],
+            "source_commits": ["81f621a"],
             "add_only": True,
         },
         "engines": [{
